@@ -2,12 +2,19 @@
 from __future__ import annotations
 
 import itertools
+import math
 import random
 from typing import Any, Dict, Iterable, List, Optional
 
-from harness.core import Case, Check, Finding, call
+from harness.core import OUTSIDE, Case, Check, Finding, call, run_driver
 
 MATRIX_MAX = 12   # pairwise relation matrices are compared for line sets up to this size
+# --- ties the statement does not break (see "tie orders" below) ---------------------------------------------
+TIE_ORDER_CAP = 720        # all processing orders of the tied lines are tried up to this many; above: partition level
+TIE_CHUNK = 90             # the orders are sent to the model in chunks of this size (stop at the first match)
+TIE_REQUEST_BUDGET = 200000    # model requests one run may spend on tie orders; afterwards: partition level
+TIE_CONFIRMED_STOP = 5     # the runner reports 5 disagreements; once that many are confirmed, later mismatches on
+#                            inputs with ties are reported without trying their tie orders (the outcome is decided)
 # the oracle's reading of "aligned rows": baselines of the cells of one row lie within this many pixels of each
 # other.  It is a number of the STATEMENT's reading, not of the code: the model takes the tolerance of
 # `is_next_to` from the source (Generated/C15.lean), and `C15_consts_row_tolerance_covers_spec` (specRowTol in
@@ -120,7 +127,7 @@ def _run_lines(specs, dx, dy, matrices: bool) -> Dict[str, Any]:
     lines = [_mk_line(s, dx, dy) for s in specs]
     out: Dict[str, Any] = {}
     out['groups'] = call(lambda: [[_lid(x) for x in g] for g in h.horizontal_group_lines(lines)])
-    for d in ('ltr', 'rtl', 'xx'):
+    for d in ('ltr', 'rtl'):
         out['rd_' + d] = call(lambda: [_lid(x) for x in h.sort_lines_in_reading_direction(lines, reading_direction=d)])
     out['sorted'] = call(lambda: [_lid(x) for x in sorted(lines)])
     if matrices:
@@ -194,6 +201,125 @@ def grid_is_clean(cells) -> bool:
                 if at > bb + SPEC_ROW_TOL or ab < bt - SPEC_ROW_TOL:
                     return False
     return True
+
+
+# ------------------------------------------------------------------------------------------
+# tie orders: the processing order of lines with exactly equal top is not fixed by the statement
+# ------------------------------------------------------------------------------------------
+# STATEMENT (conservation part, quantified over "all finite sets of lines ... (arbitrary overlap)"): "the groups
+# partition those lines, each group is ordered left to right, and the reading-direction order is a permutation of
+# them".  horizontal_group_lines stacks the lines greedily in the order `sorted(key=top)`; on overlapping layouts
+# the outcome depends on the order in which lines with EXACTLY equal `coords.top` are taken, and the statement does
+# not say which (the code takes input order because Python's sort is stable; "left to right" is as good).  So for
+# the functions downstream of horizontal_group_lines the implementation has to behave like the model on SOME
+# processing order of the tied lines: the model is asked again with the INPUT list reordered inside each tie class
+# (stable sort => that is exactly another processing order), every order up to TIE_ORDER_CAP; only above the cap is
+# the comparison reduced to what the statement says (partition / left to right / permutation).  The tie condition
+# is computed from the case input with exact integers (box top of the lines WITH text: the code filters on
+# `line.text is not None` after sorting, text-less lines are never compared with anything).  Inputs without such a
+# tie, and clean grids (where the statement fixes the result), are compared exactly.
+
+def _has_text(s) -> bool:
+    t = s.get('text')          # line spec: None / str; model line: bool
+    return t is not None and t is not False
+
+
+def _classes(items, key, member=lambda x: True) -> List[List[int]]:
+    """positions of the items with exactly equal key (classes of two or more only)"""
+    d: Dict[Any, List[int]] = {}
+    for pos, x in enumerate(items):
+        if member(x):
+            d.setdefault(key(x), []).append(pos)
+    return [ps for ps in d.values() if len(ps) > 1]
+
+
+def _line_ties(lines) -> List[List[int]]:
+    """tie classes of horizontal_group_lines: lines with text and exactly equal box top"""
+    return _classes(lines, lambda s: s['box'][1], _has_text)
+
+
+def _n_orders(classes) -> int:
+    n = 1
+    for ps in classes:
+        n *= math.factorial(len(ps))
+    return n
+
+
+def _reorderings(items, classes):
+    """every list that differs from `items` by a permutation inside each class (the list itself comes first)"""
+    items = list(items)
+    for perms in itertools.product(*(itertools.permutations(ps) for ps in classes)):
+        new = list(items)
+        for ps, perm in zip(classes, perms):
+            for dst, src in zip(ps, perm):
+                new[dst] = items[src]
+        yield new
+
+
+def _likely_orders(items, classes):
+    """a few natural tie-breaks (by left, by right, by id, reversed input ...), tried before the full enumeration"""
+    keys = [lambda s: s['box'][0], lambda s: -s['box'][0], lambda s: s['box'][2], lambda s: -s['box'][2],
+            lambda s: s['id'], lambda s: -s['id'], lambda s: s['box'][3], lambda s: -s['box'][3]]
+    seen = [list(items)]
+    for k in keys + [None]:
+        new = list(items)
+        for ps in classes:
+            srcs = list(reversed(ps)) if k is None else sorted(ps, key=lambda p: k(items[p]))
+            for dst, src in zip(ps, srcs):
+                new[dst] = items[src]
+        if new not in seen:
+            seen.append(new)
+            yield new
+
+
+def _sibling_ties(kids) -> List[List[int]]:
+    """sibling regions with exactly equal (top, left): "visits regions by top edge, then left edge" says nothing
+    about regions that agree in both"""
+    return _classes(kids, lambda k: (k['box'][1], k['box'][0]))
+
+
+def _tree_n(mt, lines_matter: bool) -> int:
+    n = _n_orders(_sibling_ties(mt['kids']))
+    if lines_matter and not mt['kids']:
+        n *= _n_orders(_line_ties(mt['lines']))
+    for k in mt['kids']:
+        n *= _tree_n(k, lines_matter)
+    return n
+
+
+def _tree_variants(mt, lines_matter: bool) -> list:
+    """model trees that differ from `mt` only in the order of sibling regions with equal (top, left) and, if
+    `lines_matter`, of the text lines with equal top inside one leaf region (column reading order looks at the lines
+    of the leaves only); `mt` itself comes first.  Call only when _tree_n is small."""
+    kid_variants = [_tree_variants(k, lines_matter) for k in mt['kids']]
+    sib = _sibling_ties(mt['kids'])
+    if lines_matter and not mt['kids']:
+        line_orders = list(_reorderings(mt['lines'], _line_ties(mt['lines'])))
+    else:
+        line_orders = [mt['lines']]
+    out = []
+    for kids in itertools.product(*kid_variants):
+        for kids2 in _reorderings(kids, sib):
+            for ls in line_orders:
+                out.append(dict(mt, kids=kids2, lines=ls))
+    return out
+
+
+def _get_lines(mt) -> list:
+    """PageXMLTextRegion.get_lines as the model has it (Model/C15.lean getLines): the kids' lines, then the own"""
+    return [l for k in mt['kids'] for l in _get_lines(k)] + list(mt['lines'])
+
+
+def _partition_level(nm, val, left_of):
+    """what the statement says about the result on overlapping layouts, and nothing else"""
+    if not isinstance(val, dict) or 'ok' not in val:
+        return val
+    if nm == 'groups':
+        gs = val['ok']
+        return {'ids': sorted(i for g in gs for i in g), 'no_empty_group': all(len(g) > 0 for g in gs),
+                'left_to_right': all(left_of.get(g[k], 0) <= left_of.get(g[k + 1], 0)
+                                     for g in gs for k in range(len(g) - 1))}
+    return {'ids': sorted(val['ok'])}
 
 
 # ------------------------------------------------------------------------------------------
@@ -426,6 +552,9 @@ class C15(Check):
         return {'PagexmlModel/Generated/C15.lean': body}
 
     # ---------------------------------------------------------------- generation
+    _confirmed = 0        # disagreements reported so far in this run (see TIE_CONFIRMED_STOP)
+    _tie_requests = 0     # model requests spent on tie orders in this run (see TIE_REQUEST_BUDGET)
+
     def cases(self, rng: random.Random, tier: str) -> Iterable[Case]:
         quick = tier == 'quick'
         out: List[Case] = []
@@ -526,6 +655,28 @@ class C15(Check):
             out.append(Case('lines', {'lines': _rand_lines(rng, n, 200, 100, none_bl=rng.choice([0.0, 0.3]),
                                                            zero=rng.choice([0.0, 0.5])),
                                       'dx': rng.randint(-100, 100), 'dy': rng.randint(-100, 100)}, ['malformed']))
+        # ---- cases outside the quantifier (nothing below draws from rng: the streams above are unchanged) ----
+        # QUANTIFIER: "all finite sets of lines with positive-size boxes and baselines".  A line without baseline or
+        # with an empty box is outside it (whatever the code does there - ZeroDivisionError in sort_lines,
+        # AttributeError on baseline None - is no part of the statement), and a Baseline with an empty point list
+        # cannot even be constructed (`Baseline([])` raises; the 'baseline' cases empty the list afterwards).  The
+        # model still mirrors the code there; a difference is recorded in the evidence, it breaks nothing, and the
+        # oracle does not judge these cases.  Decided from the case input, not from the generator stream (a
+        # 'malformed' draw whose lines all came out valid stays inside).
+        for c in out:
+            if c.kind == 'lines' and not all(_valid_line(x) for x in c.input['lines']):
+                c.tags.append(OUTSIDE)
+            elif c.kind == 'baseline' and (not c.input['b1'] or not c.input['b2']):
+                c.tags.append(OUTSIDE)
+        # QUANTIFIER: "directions ltr/rtl".  What happens for any other direction string (today: ValueError iff there
+        # is at least one group, because the check sits inside the loop over the groups) is outside the statement:
+        # observed on a share of the line cases, as cases of their own, tagged OUTSIDE.
+        line_cases = [c for c in out if c.kind == 'lines']
+        for i, c in enumerate(line_cases):
+            if 'corpus' in c.tags or i % 4 == 0:
+                out.append(Case('direction', {'lines': c.input['lines'], 'dir': 'xx'}, ['invalid-direction', OUTSIDE]))
+        self._confirmed = 0
+        self._tie_requests = 0
         return out
 
     # ---------------------------------------------------------------- implementation
@@ -555,6 +706,11 @@ class C15(Check):
                     res[name]['doc'] = _run_doc(inp['doc'], cells, dx, dy)
                     res[name]['flat'] = _run_doc(inp['flat'], cells, dx, dy)
             return res
+        if case.kind == 'direction':
+            _, h, _ = _real()
+            lines = [_mk_line(x) for x in inp['lines']]
+            return {'rd': call(lambda: [_lid(x) for x in h.sort_lines_in_reading_direction(
+                lines, reading_direction=inp['dir'])])}
         if case.kind == 'tree':
             return {'base': _run_doc(inp['doc'], inp['lines'], 0, 0),
                     'shifted': _run_doc(inp['doc'], inp['lines'], inp['dx'], inp['dy'])}
@@ -581,8 +737,7 @@ class C15(Check):
             specs = inp['lines'] if case.kind == 'lines' else inp['cells']
             ml = [_model_line(s) for s in specs]
             reqs = [rq('group_lines', lines=ml), rq('reading_direction', lines=ml, dir='ltr'),
-                    rq('reading_direction', lines=ml, dir='rtl'), rq('reading_direction', lines=ml, dir='xx'),
-                    rq('sort_lines', lines=ml)]
+                    rq('reading_direction', lines=ml, dir='rtl'), rq('sort_lines', lines=ml)]
             if case.kind == 'lines':
                 if len(specs) <= MATRIX_MAX:
                     reqs.append(rq('line_rel', lines=ml))
@@ -591,6 +746,8 @@ class C15(Check):
                 for key in ('doc', 'flat'):
                     reqs.extend(self._doc_requests(inp[key], by_id))
             return reqs
+        if case.kind == 'direction':
+            return [rq('reading_direction', lines=[_model_line(x) for x in inp['lines']], dir=inp['dir'])]
         if case.kind == 'tree':
             return self._doc_requests(inp['doc'], {s['id']: s for s in inp['lines']})
         if case.kind == 'regions':
@@ -608,16 +765,103 @@ class C15(Check):
                 reqs.append({'p': 'C15', 'op': 'row_order', 'args': {'doc': mt, 'dir': d}})
         return reqs
 
-    @staticmethod
-    def _cmp_doc(impl_doc, answers) -> Optional[str]:
+    # ---- comparison up to the processing order of exact ties (see "tie orders" at the top of the module) ----
+    def _some_tie_order(self, targets, n, likely, rest, left_of) -> Optional[str]:
+        """targets: (name, impl value, model value on the input as given, order -> model request), all functions of
+        the same input.  n = number of orders the statement leaves open on this input (1 = no tie: the comparison
+        is exact); `likely` (a few natural tie-breaks, tried first) and `rest` yield the reordered inputs.
+        None iff every target's implementation value equals the model's answer on one of the orders (above the cap:
+        iff it agrees with the model as far as the statement goes).  Each function is matched on its own: nothing
+        in the statement ties the order one call takes to the order another call takes."""
+        todo = [t for t in targets if t[1] != t[2]]
+        if not todo:
+            return None
+        nm, impl_val, model_val, _ = todo[0]
+        exact = f'{nm}: impl={impl_val} model={model_val}'
+        if n <= 1:
+            return exact
+        if self._confirmed >= TIE_CONFIRMED_STOP:
+            return exact + f' [input has {n} tie orders; not tried, {self._confirmed} disagreements are reported already]'
+        if n <= TIE_ORDER_CAP and self._tie_requests < TIE_REQUEST_BUDGET:
+            it = iter(rest)
+            chunk = list(likely)
+            while todo:
+                if chunk:
+                    self._tie_requests += len(chunk) * len(todo)
+                    answers = run_driver([t[3](o) for o in chunk for t in todo])
+                    todo = [t for j, t in enumerate(todo) if t[1] not in answers[j::len(todo)]]
+                    if not todo:
+                        return None
+                chunk = list(itertools.islice(it, TIE_CHUNK))
+                if not chunk:
+                    break
+            nm, impl_val, model_val, _ = todo[0]
+            return (f'{nm}: impl={impl_val} equals the model on none of the {n} processing orders of the lines / regions '
+                    f'with equal keys; model on the input order={model_val}')
+        for nm, impl_val, model_val, _ in todo:
+            if _partition_level(nm, impl_val, left_of) != _partition_level(nm, model_val, left_of):
+                return f'{nm} (compared as partition / permutation, {n} tie orders): impl={impl_val} model={model_val}'
+        return None
+
+    def _cmp_line_fns(self, specs, triples, exact_only) -> Optional[str]:
+        """triples: (groups | rd_ltr | rd_rtl, impl value, model value) of one line list"""
+        if exact_only:
+            for nm, impl_val, model_val in triples:
+                if impl_val != model_val:
+                    return f'{nm}: impl={impl_val} model={model_val}'
+            return None
+        ml = [_model_line(x) for x in specs]
+        ties = _line_ties(ml)
+
+        def mk(nm):
+            op, args = ('group_lines', {}) if nm == 'groups' else ('reading_direction', {'dir': nm[3:]})
+            return lambda o: {'p': 'C15', 'op': op, 'args': dict(args, lines=o)}
+        return self._some_tie_order([(nm, i, m, mk(nm)) for nm, i, m in triples], _n_orders(ties),
+                                    _likely_orders(ml, ties), itertools.islice(_reorderings(ml, ties), 1, None),
+                                    {x['id']: x['box'][0] for x in specs})
+
+    def _cmp_doc(self, impl_doc, answers, mt, exact_only) -> Optional[str]:
+        """regions_ro / column_<dir> / row_<dir> of a document; `mt` is the model tree the answers were computed on.
+        STATEMENT: "column reading order visits regions by top edge, then left edge" - the order of regions with
+        different (top, left) is fixed and compared exactly; sibling regions that agree in BOTH are a tie the
+        statement does not break (the code keeps their collection order: columns, text_regions, extra).  The lines of
+        each region go through sort_lines_in_reading_direction, i.e. horizontal_group_lines: tie orders as above."""
         names = ['regions_ro']
         for d in ('ltr', 'rtl'):
             names.append('column_' + d)
             if 'row_' + d in impl_doc:
                 names.append('row_' + d)
         for nm, a in zip(names, answers):
-            if impl_doc[nm] != a:
+            if impl_doc[nm] == a:
+                continue
+            if exact_only:
                 return f'{nm}: impl={impl_doc[nm]} model={a}'
+            left_of = {l['id']: l['box'][0] for l in _get_lines(mt)}
+            if nm.startswith('row_'):
+                # row order = sort_lines_in_reading_direction(doc.get_lines()): the ties are those of the flat list
+                flat = _get_lines(mt)
+
+                def mk(o, d=nm[4:]):
+                    return {'p': 'C15', 'op': 'reading_direction', 'args': {'lines': o, 'dir': d}}
+                ties = _line_ties(flat)
+                n = _n_orders(ties)
+                if 1 < n <= TIE_ORDER_CAP and self._confirmed < TIE_CONFIRMED_STOP and run_driver([mk(flat)])[0] != a:
+                    return f'{nm}: the harness\'s get_lines order {[l["id"] for l in flat]} is not the model\'s'
+                likely, rest = _likely_orders(flat, ties), itertools.islice(_reorderings(flat, ties), 1, None)
+            else:
+                lines_matter = nm != 'regions_ro'
+                n = _tree_n(mt, lines_matter)
+                likely = []
+                rest = itertools.islice(_tree_variants(mt, lines_matter), 1, None) if 1 < n <= TIE_ORDER_CAP else []
+                if nm == 'regions_ro':
+                    def mk(o):
+                        return {'p': 'C15', 'op': 'regions_ro', 'args': {'doc': o}}
+                else:
+                    def mk(o, d=nm[7:]):
+                        return {'p': 'C15', 'op': 'column_order', 'args': {'doc': o, 'dir': d}}
+            diff = self._some_tie_order([(nm, impl_doc[nm], a, mk)], n, likely, rest, left_of)
+            if diff:
+                return diff
         return None
 
     @staticmethod
@@ -644,27 +888,45 @@ class C15(Check):
         return None
 
     def compare(self, case, impl_out, model_out):
+        d = self._compare(case, impl_out, model_out)
+        if d is not None and OUTSIDE not in case.tags:
+            self._confirmed += 1
+        return d
+
+    def _compare(self, case, impl_out, model_out):
         if case.kind in ('lines', 'grid'):
             b = impl_out['base']
-            for nm, a in zip(['groups', 'rd_ltr', 'rd_rtl', 'rd_xx'], model_out[:4]):
-                if b[nm] != a:
-                    return f'{nm}: impl={b[nm]} model={a}'
+            specs = case.input['lines'] if case.kind == 'lines' else case.input['cells']
+            # STATEMENT: for clean layouts the orders are fixed completely (row-major, rows reversed ...): a clean
+            # grid is compared exactly whatever ties it has.  Everything else is the conservation part, where the
+            # processing order of lines with exactly equal top is open (see "tie orders" at the top of the module).
+            clean = case.kind == 'grid' and grid_is_clean(specs)
+            d = self._cmp_line_fns(specs, [(nm, b[nm], a) for nm, a in zip(['groups', 'rd_ltr', 'rd_rtl'], model_out[:3])],
+                                   exact_only=clean)
+            if d:
+                return d
+            # is_below / is_next_to / __lt__ and sorted(lines) do not depend on any processing order: exact
             rel = None
-            rest = model_out[5:]
+            rest = model_out[4:]
             if case.kind == 'lines' and len(case.input['lines']) <= MATRIX_MAX:
                 rel = rest[0]['ok']
                 for nm in ('below', 'next_to', 'lt'):
                     if b[nm] != rel[nm]:
                         return f'{nm} matrix: impl={b[nm]} model={rel[nm]}'
-            d = self._cmp_sorted(b['sorted'], model_out[4], b.get('lt'), rel['lt'] if rel else None)
+            d = self._cmp_sorted(b['sorted'], model_out[3], b.get('lt'), rel['lt'] if rel else None)
             if d:
                 return d
             if case.kind == 'grid' and 'doc' in b:
                 n = len(rest) // 2 if case.input['doc']['type'] != 'page' else 3
-                return self._cmp_doc(b['doc'], rest[:n]) or self._cmp_doc(b['flat'], rest[n:])
+                by_id = {x['id']: x for x in specs}
+                return self._cmp_doc(b['doc'], rest[:n], _model_tree(case.input['doc'], by_id), clean) or \
+                    self._cmp_doc(b['flat'], rest[n:], _model_tree(case.input['flat'], by_id), clean)
             return None
+        if case.kind == 'direction':
+            return None if impl_out['rd'] == model_out[0] else f'rd_{case.input["dir"]}: impl={impl_out["rd"]} model={model_out[0]}'
         if case.kind == 'tree':
-            return self._cmp_doc(impl_out['base'], model_out)
+            by_id = {x['id']: x for x in case.input['lines']}
+            return self._cmp_doc(impl_out['base'], model_out, _model_tree(case.input['doc'], by_id), False)
         if case.kind == 'regions':
             b = impl_out['base']
             if b['lt'] != model_out[1]['ok']['lt']:
@@ -683,7 +945,7 @@ class C15(Check):
         inp = case.input
         if case.kind in ('lines', 'grid'):
             specs = inp['lines'] if case.kind == 'lines' else inp['cells']
-            if not all(_valid_line(s) for s in specs):
+            if OUTSIDE in case.tags or not all(_valid_line(s) for s in specs):
                 return fs                       # outside the quantifier (no baseline / empty box): not judged
             by_id = {s['id']: s for s in specs}
             with_text = sorted(s['id'] for s in specs if s.get('text') is not None)
@@ -782,7 +1044,7 @@ class C15(Check):
 
     # ---------------------------------------------------------------- bookkeeping
     def nontrivial(self, case: Case) -> bool:
-        if case.kind == 'lines':
+        if case.kind in ('lines', 'direction'):
             return len(case.input['lines']) >= 2
         if case.kind == 'grid':
             return len(case.input['cells']) >= 2
@@ -851,6 +1113,14 @@ C15.level_note = (
     'is_horizontally_overlapping) are REGENERATED from the working tree on every run (translate() -> Generated/C15.lean); '
     'all proofs treat them as unknown numbers except the named relations C15_consts_* (two tolerances equal, limit >= 0, '
     'ratio in [0,1), threshold >= 0, tolerance >= the 10 px of the oracle\'s reading of "aligned rows"), each decided on '
-    'the regenerated table')
+    'the regenerated table. '
+    'Correspondence level: id sequences are compared exactly, except that the results downstream of '
+    'horizontal_group_lines (groups, ltr/rtl reading direction, column / row reading order of documents) are compared up '
+    'to the processing order of lines with text and EXACTLY equal top on inputs that are not clean grids (the '
+    'implementation must equal the model on some order of the tied lines: all orders are tried up to 720, above that only '
+    'partition / left-to-right / permutation are compared), and sort_regions_in_reading_order up to the order of sibling '
+    'regions with equal (top, left); clean grids, inputs without such ties, the relation matrices and sorted() are exact. '
+    'Lines without baseline or with an empty box, emptied baselines and direction strings other than ltr/rtl lie outside '
+    'the quantifier: observed and recorded only')
 
 CHECK = C15()
